@@ -289,9 +289,11 @@ def run(chk):
     if sres.violated:
         raise tlc.MachineryError('Session model violates %s' % sres.violated)
     recs = [r for r in sres.records if 't' in r]
-    if quick and len(recs) > 6000:
+    cap = 6000 if quick else 250000
+    chk.notes['session_interleavings_enumerated'] = len(recs)
+    if len(recs) > cap:
         rng.shuffle(recs)
-        recs = recs[:6000]
+        recs = recs[:cap]
     for r in recs:
         r['expect'] = session_expect
     bad = obs.pmap(_session, recs)
